@@ -683,6 +683,11 @@ pub fn run(ctx: &Ctx) -> ! {
         max_shrink_iters: 2000,
     };
     let r = run_sharded(&ev, &spec, 12, &|case| run_case(case, &targets, &corpus, &ev));
+    if r.is_ok() && ctx.tier == Tier::Thorough {
+        if let Err((f, payload)) = fuzz_stage(ctx, &ev) {
+            finish_violation(&ev, Violation { failure: f, case: None }, payload);
+        }
+    }
     match r {
         Ok(()) => finish_ok(&ev),
         Err(v) => {
@@ -790,6 +795,85 @@ fn live_state_case(case: &Case, ev: &Evidence, hp: &crate::history::HistoryParam
     h.grow_initial(case, &mut obs)?;
     h.run_ops(case, &mut obs)?;
     ev.class_n("live_state_objects_checked", obs.checked);
+    Ok(())
+}
+
+// ---------------------------------------------------------------------------------------------
+// coverage-guided stage (thorough tier): libFuzzer target harness/fuzz/fuzz_targets/decode.rs, seeded with the IETF
+// vectors, bounded by a run count. The oracle is inside the target; a crash artifact becomes a replay file for the
+// in-process judge. Tooling trouble (no nightly, build failure, time-out) is reported and never counted as a violation.
+
+fn fuzz_stage(ctx: &Ctx, ev: &Evidence) -> Result<(), (Failure, Value)> {
+    use std::process::Command;
+    let root = format!("{}/harness/fuzz", VERIF_ROOT);
+    let art = format!("{root}/artifacts/decode");
+    let _ = std::fs::remove_dir_all(&art);
+    for e in std::fs::read_dir(&root).into_iter().flatten().flatten() {
+        if e.file_name().to_string_lossy().starts_with("fuzz-") {
+            let _ = std::fs::remove_file(e.path());
+        }
+    }
+    let seeded = Command::new("python3").arg(format!("{}/tools/fuzz_seed_corpus.py", VERIF_ROOT)).output();
+    if !seeded.map(|o| o.status.success()).unwrap_or(false) {
+        ev.put_extra("fuzz_stage", json!({"status": "unavailable", "why": "seed corpus script failed"}));
+        println!("NOTE property={P}: coverage-guided stage unavailable (seed corpus)");
+        return Ok(());
+    }
+    let runs: u64 = std::env::var("VERIF_FUZZ_RUNS").ok().and_then(|v| v.parse().ok()).unwrap_or(400_000);
+    let jobs = 12;
+    let build = Command::new("cargo").args(["+nightly", "fuzz", "build", "decode"]).current_dir(&root).env("CARGO_NET_OFFLINE", "true").output();
+    match build {
+        Ok(o) if o.status.success() => {}
+        other => {
+            let why = other.map(|o| String::from_utf8_lossy(&o.stderr).lines().rev().take(3).collect::<Vec<_>>().join(" | ")).unwrap_or_else(|e| e.to_string());
+            ev.put_extra("fuzz_stage", json!({"status": "unavailable", "why": why}));
+            println!("NOTE property={P}: coverage-guided stage unavailable (cargo +nightly fuzz build failed)");
+            return Ok(());
+        }
+    }
+    let t0 = std::time::Instant::now();
+    let out = Command::new("cargo")
+        .args(["+nightly", "fuzz", "run", "decode", "--"])
+        .args([format!("-runs={runs}"), format!("-seed={}", (ctx.seed % 0x7fff_fffe) + 1), "-max_len=4096".into(), "-len_control=0".into(), format!("-jobs={jobs}"), format!("-workers={jobs}")])
+        .current_dir(&root)
+        .env("CARGO_NET_OFFLINE", "true")
+        .output();
+    let secs = t0.elapsed().as_secs();
+    let crashes: Vec<std::path::PathBuf> = std::fs::read_dir(&art).into_iter().flatten().flatten().map(|e| e.path()).filter(|p| p.file_name().map(|n| n.to_string_lossy().starts_with("crash-")).unwrap_or(false)).collect();
+    // what the target said
+    let mut message = String::new();
+    let mut execs = 0u64;
+    for e in std::fs::read_dir(&root).into_iter().flatten().flatten() {
+        if e.file_name().to_string_lossy().starts_with("fuzz-") {
+            let log = std::fs::read_to_string(e.path()).unwrap_or_default();
+            for l in log.lines() {
+                if let Some(n) = l.strip_prefix("stat::number_of_executed_units:") {
+                    execs += n.trim().parse::<u64>().unwrap_or(0);
+                }
+            }
+            if message.is_empty() {
+                let lines: Vec<&str> = log.lines().collect();
+                if let Some(i) = lines.iter().position(|l| l.contains("panicked at")) {
+                    message = lines[i..(i + 3).min(lines.len())].join(" ");
+                }
+            }
+        }
+    }
+    ev.eval(execs);
+    ev.class_n("fuzz_stage_executions", execs);
+    ev.put_extra("fuzz_stage", json!({"status": if crashes.is_empty() { "clean" } else { "crash" }, "engine": "libFuzzer via cargo-fuzz", "target": "harness/fuzz/fuzz_targets/decode.rs", "jobs": jobs, "runs_per_job": runs, "executions": execs, "wall_s": secs, "exit_ok": out.as_ref().map(|o| o.status.success()).unwrap_or(false)}));
+    if let Some(c) = crashes.first() {
+        let data = std::fs::read(c).unwrap_or_default();
+        let (sel, body) = data.split_first().map(|(a, b)| (*a, b.to_vec())).unwrap_or((0, vec![]));
+        let target = if sel % 4 == 2 { "ExportedTree" } else { "MlsMessage" };
+        let what = message.split("MlsMessage").next().unwrap_or("").len();
+        let _ = what;
+        let short: String = message.chars().filter(|c| !c.is_ascii_digit()).take(120).collect();
+        return Err((Failure::new(format!("{P}|fuzz_target|{}", short.trim()), format!("libFuzzer artifact {}: {message}", c.display())), json!({"kind": "bytes", "target": target, "bytes_hex": hex::encode(body)})));
+    }
+    if !out.map(|o| o.status.success()).unwrap_or(false) && execs == 0 {
+        println!("NOTE property={P}: coverage-guided stage did not run to completion");
+    }
     Ok(())
 }
 
